@@ -11,6 +11,8 @@ import Homonim.GeneratedCode
 import Homonim.Model.Kernel
 import Homonim.Model.Blocks
 import Homonim.Model.Layout
+import Homonim.Model.WindowIO
+import Homonim.Model.Mask
 import Homonim.Lemmas.Geom
 import Mathlib.Algebra.Order.Floor.Ring
 import Mathlib.Data.Rat.Floor
@@ -124,5 +126,22 @@ theorem src_C05_overlap (k : Nat) : (overlapForKernel k : Int) = Src.overlapForK
 
 /-- `_process_block`: band indexes of the parameter image -/
 theorem src_C14_param_index (n i k : Nat) : paramIndex n i k = Src.paramIndex n i k := rfl
+
+
+/-! ### raster_array.py (C20), kernel_model.py `_full_coverage_mask` (C17) -/
+
+/-- `bounded_window_slices` (np.clip / np.fmax on the corners) is the model's `boundedFixed`: dataset window and array slice -/
+theorem src_C20_bounded (n lo hi : Int) :
+    boundedFixed n lo hi = (⟨bounded_ul n lo hi, bounded_br n lo hi⟩, ⟨bounded_start n lo hi, bounded_stop n lo hi⟩) := by
+  unfold boundedFixed bounded_ul bounded_br bounded_start bounded_stop
+  rfl
+
+/-- `_full_coverage_mask`: the erosion element is the kernel grown by two (`erodeAt` ranges over `k + 2` positions per axis) -/
+theorem src_C17_erode_size (kh kw h w : Nat) (m : Nat → Nat → Bool) (r c : Nat) :
+    erodeAt kh kw h w m r c =
+      ((List.range (cover_erodeSize kh)).all fun (di : Nat) => (List.range (cover_erodeSize kw)).all fun (dj : Nat) =>
+        let i : Int := (r : Int) - ((cover_erodeSize kh) / 2 : Nat) + di
+        let j : Int := (c : Int) - ((cover_erodeSize kw) / 2 : Nat) + dj
+        decide (0 ≤ i) && decide (i < h) && decide (0 ≤ j) && decide (j < w) && m i.toNat j.toNat) := rfl
 
 end Homonim
